@@ -1,29 +1,50 @@
 import S3V.Props.C14
 /-!
-# C14 — kernel-checked witnesses of open findings (outside the pass/fail gate)
+# C14 — kernel-checked regression facts for repaired findings (outside the pass/fail gate)
 
-F-dto-4: `Timestamp::parse(EpochSeconds)` refuses the text `Timestamp::format(EpochSeconds)` writes
-for an instant before 1970.
-(F-dto-5, the 16-digit `f64` texts just after the epoch, lives in the driver-side float model only
-and has no kernel-checked witness.)
+F-dto-4 (`ts-epoch-pre1970`, repaired by 4f99c94): `Timestamp::parse(EpochSeconds)` refused the text
+`Timestamp::format(EpochSeconds)` writes for an instant before 1970 (`-1`, `-0.5`, `-62135596800`).
+F-dto-5 (`ts-epoch-f64-text`, repaired by 4f99c94): `format` went through `f64`; 1970-01-01T00:00:01.118Z
+was written `1.1179999999999999`, which denotes another instant and which `parse` refused.
+
+The former counterexamples no longer hold (`C14_ts_epoch_roundtrip` is proved for all instants of the
+years 1 … 9999); what is kept here are the old witnesses as facts about the model of the repaired code.
 -/
 namespace S3V.C14
 open S3V S3V.Dto
 
-/-- the instant 1969-12-31T23:59:59Z is written `-1` … -/
-theorem C14_witness_epoch_pre1970_text : formatEpochWhole ⟨-1, 0, 0⟩ = some [45, 49] := by
-  simp [formatEpochWhole, fmtInt, fmtDec, digitChar]
+/-- F-dto-4: the instant 1969-12-31T23:59:59Z is written `-1` … -/
+theorem C14_regression_epoch_pre1970_text : formatEpochSeconds ⟨-1, 0, 0⟩ = some [45, 49] := by decide +kernel
 
-/-- … which `parse` refuses -/
-theorem C14_witness_epoch_pre1970_refused : parseEpochSeconds [45, 49] = none := by decide
+/-- … which `parse` now reads back -/
+theorem C14_regression_epoch_pre1970_parsed : parseEpochSeconds [45, 49] = some ⟨-1, 0, 0⟩ := by decide +kernel
 
-/-- so the whole-seconds round trip does not hold for all instants of the years 1 … 9999 -/
-theorem C14_counterexample_epoch_pre1970 : ¬ C14_ts_epoch_whole_roundtrip_full := by
-  intro h
-  obtain ⟨txt, h1, h2⟩ := h (-1) 0 (by decide) (by decide)
-  rw [C14_witness_epoch_pre1970_text] at h1
-  cases h1
-  rw [C14_witness_epoch_pre1970_refused] at h2
-  cases h2
+/-- F-dto-4: half a second before the epoch is written `-0.5` and read back -/
+theorem C14_regression_epoch_minus_half :
+    formatEpochSeconds ⟨-1, 500000000, 0⟩ = some [45, 48, 46, 53] ∧
+    parseEpochSeconds [45, 48, 46, 53] = some ⟨-1, 500000000, 0⟩ := by decide +kernel
+
+/-- F-dto-4: the first instant of year 1 is written `-62135596800` and read back -/
+theorem C14_regression_epoch_year1 :
+    formatEpochSeconds ⟨-62135596800, 0, 0⟩ = some [45, 54, 50, 49, 51, 53, 53, 57, 54, 56, 48, 48] ∧
+    parseEpochSeconds [45, 54, 50, 49, 51, 53, 53, 57, 54, 56, 48, 48] = some ⟨-62135596800, 0, 0⟩ := by
+  decide +kernel
+
+/-- F-dto-5: 1970-01-01T00:00:01.118Z is written `1.118` (not `1.1179999999999999`) and read back -/
+theorem C14_regression_epoch_f64_text :
+    formatEpochSeconds ⟨1, 118000000, 0⟩ = some [49, 46, 49, 49, 56] ∧
+    parseEpochSeconds [49, 46, 49, 49, 56] = some ⟨1, 118000000, 0⟩ := by decide +kernel
+
+/-- F-dto-5: the text the old code wrote has more than nine fraction digits and is still refused
+    (`1.1179999999999999`); the repaired `format` never writes such a text -/
+theorem C14_regression_epoch_old_f64_text_refused :
+    parseEpochSeconds [49, 46, 49, 49, 55, 57, 57, 57, 57, 57, 57, 57, 57, 57, 57, 57, 57, 57] = none := by
+  decide +kernel
+
+/-- `-` is a sign only in front of a digit: `-`, `-.5`, `--1`, `-+1` are refused, `-0` is the epoch -/
+theorem C14_regression_epoch_sign_spellings :
+    parseEpochSeconds [45] = none ∧ parseEpochSeconds [45, 46, 53] = none ∧
+    parseEpochSeconds [45, 45, 49] = none ∧ parseEpochSeconds [45, 43, 49] = none ∧
+    parseEpochSeconds [45, 48] = some ⟨0, 0, 0⟩ := by decide +kernel
 
 end S3V.C14
